@@ -43,8 +43,8 @@ pub fn lookup(id: &str) -> Option<Meta> {
         "C17" => Some(Meta {
             prop: Prop { id: "C17", tag: 0xC17, generate: c17_gen, execute: c17::execute, systematic: Some(c17::systematic) },
             level: "fault_enumeration",
-            quick_runs: 400_000,
-            thorough_runs: 3_000_000,
+            quick_runs: 1_200_000,
+            thorough_runs: 4_000_000,
             max_len: 512,
             rule: "one evaluation = one history of coloured writes: (surface in {ansi::write_colored, WinconStream for dyn Write / dyn Write+Send / dyn Write+Send+Sync / Box<dyn Write> / &mut dyn Write / Vec<u8> / File}, data, base colour pair rotated per call over all 17x17 pairs, client write loop, offset-keyed fault script over the framed output so that any of the up to four inner writes of a call can be shortened or failed); each call's output is split existentially into <codes><accepted data><reset> and the codes are interpreted by an independent 16-colour SGR interpreter. The thorough tier adds, for one seeded workload in 256, all 17x17 colour pairs x (no fault + every fault kind at every output offset). Non-trivial = a fault fired or the history has at least two calls; distinct = distinct signatures of such histories",
             assumptions: &[
@@ -63,8 +63,8 @@ pub fn lookup(id: &str) -> Option<Meta> {
         "C18" => Some(Meta {
             prop: Prop { id: "C18", tag: 0xC18, generate: c18_gen, execute: c18::execute, systematic: Some(c18::systematic) },
             level: "fault_enumeration",
-            quick_runs: 300_000,
-            thorough_runs: 4_000_000,
+            quick_runs: 1_000_000,
+            thorough_runs: 8_000_000,
             max_len: 70_000,
             rule: "one evaluation = one history: (SGR-heavy grammar-generated input, seeded sequence of write / write_vectored / write_all / write! / failing write! / flush calls against the legacy-console stream compiled from /repo's wincon.rs, offset-keyed fault script for the simulated console: short counts, Ok(0), Interrupted, WouldBlock, hard errors, failing flush); after every call the (byte, fg, bg) sequence the console received is compared with the one-shot styled-run extraction of the prefix reported consumed, colours reduced by an independent 16-colour cap. The thorough tier adds every single fault of every kind at every text offset for generated inputs of <= 16 bytes. Non-trivial = a fault fired, or a call started while the parser was inside a sequence or character; distinct = distinct signatures of such histories",
             assumptions: &[
@@ -83,8 +83,8 @@ pub fn lookup(id: &str) -> Option<Meta> {
         "C08" => Some(Meta {
             prop: Prop { id: "C08", tag: 0xC08, generate: c08_gen, execute: c08::execute, systematic: None },
             level: "exploration",
-            quick_runs: 400_000,
-            thorough_runs: 8_000_000,
+            quick_runs: 1_500_000,
+            thorough_runs: 12_000_000,
             max_len: 70_000,
             rule: "one evaluation = one lock-step differential history: (construction path in {never, new(Never), always_ansi, always, new(AlwaysAnsi), new(Always)}, writer in {Box<dyn Write>, &mut dyn Write, Box<dyn Write+Send>, Vec<u8>, &mut Vec<u8>, File, &mut File}, grammar-generated input, seeded sequence of write / write_vectored / write_all / write! / failing write! / flush calls, offset-keyed fault script, optional into_inner point) applied to the AutoStream under test and to the reference (StripStream over a twin writer, or the twin writer itself) with identical fault scripts; per-call results and accepted bytes are compared after every call, the reported mode and is_terminal() before, the writer returned by into_inner after. Non-trivial = a fault fired or the history mixes at least two kinds of call; distinct = distinct signatures of such histories",
             assumptions: &[
@@ -111,8 +111,8 @@ pub fn lookup(id: &str) -> Option<Meta> {
                 systematic: Some(c06::systematic),
             },
             level: "fault_enumeration",
-            quick_runs: 400_000,
-            thorough_runs: 6_000_000,
+            quick_runs: 1_500_000,
+            thorough_runs: 8_000_000,
             max_len: 70_000,
             rule: "one evaluation = one history: (stream surface, grammar-generated input, seeded sequence of write / write_vectored / write_all / write! / failing-Display write! / flush calls, offset-keyed fault script for the inner writer) executed against the real strip stream with the oracle evaluated after every client call; the thorough tier adds, for every generated input of <= 10 bytes, every single fault of {Short(1..3), Ok(0), Interrupted, WouldBlock, hard} at every accepted-byte offset and every pair of {Short(1), Interrupted, Ok(0), WouldBlock} placements. Non-trivial = at least one fault fired while the carried parser state was not ground, inside a multi-byte character, or after partial progress within the call; distinct = distinct FNV-1a signatures of (surface, input, ops, faults) among the non-trivial histories. 20 % of the seeded histories are a separate fault-free configuration with the same strict oracle",
             assumptions: &[
@@ -149,8 +149,8 @@ pub fn lookup(id: &str) -> Option<Meta> {
                 systematic: Some(c03::exhaustive_cuts),
             },
             level: "exploration",
-            quick_runs: 600_000,
-            thorough_runs: 12_000_000,
+            quick_runs: 2_000_000,
+            thorough_runs: 16_000_000,
             max_len: 70_000,
             rule: "one evaluation = one (surface, input, chunking) executed against the real adapters and compared with the same real code run one-shot; inputs come from a swarm-weighted token grammar (text, UTF-8, C0/DEL, SGR/CSI/ESC/OSC/DCS/SOS/PM/APC, controls inside sequences, truncated sequences, malformed UTF-8), chunkings from {single, all single bytes, uniform 1..k, cuts aimed inside tokens, empty chunks}; the thorough tier adds all 2^(n-1) cut sets of every generated input of <= 12 bytes. A case is non-trivial when at least one cut falls strictly inside the input while the (coverage-only) shadow parser is not in the ground state, i.e. inside an escape sequence or a multi-byte character; distinct = distinct FNV-1a signatures of (surface, input, chunk lengths) among the non-trivial cases",
             assumptions: &[
